@@ -2,7 +2,7 @@
 import random
 from fractions import Fraction as F
 import simlib, simstream, core
-TRUSTED = ["exact regime; RNG: seeded reproducibility of random demands is checked Python-vs-Python only",
+TRUSTED = ["exact regime; RNG: with random demand sources / Markov disruptions the model is driven by the realised demands and disruption states; reproducibility under a seed (incl. 0) is checked Python-vs-Python only",
 		   "the model IS the reference implementation of the documented sequence of events (Model/Sim.lean, reconciliations marked RECONCILED:)"]
 THEOREM = 'Props/C06.list (step_batch, resolve_rename, op_skips_order, sp_holds, tp_freezes, rp_releases)'
 
@@ -20,7 +20,14 @@ def variants(rep, spec, base):
 			rep.diff('variants', '%s trajectory differs from the batch run: %s' % (tag, simlib.fmt_diffs(d)), spec,
 					 py={'variant': tag, 'diffs': [list(map(str, x)) for x in d[:8]]}, oracle=True, theorem=THEOREM)
 	rng = random.Random(hash(str(spec['labels'])) & 0xffff)
+	def reset_markov():
+		# the current state of a Markov disruption process is an input of the run (DisruptionProcess.disrupted, settable by the user and through
+		# network_from_edges); a simulation leaves it in its last state, so "the same network" means: with that attribute put back
+		for o in base['objs'].values():
+			if o.disruption_process is not None and o.disruption_process.random_process_type == 'M':
+				o.disruption_process.disrupted = False
 	cmp('initialize+step*T+close', simlib.run_py(spec, mode='step'))
+	reset_markov()
 	cmp('second run on the same objects', simlib.run_py(spec, net_objs=(base['net'], base['objs'])))
 	cmp("consistency_checks='E'", simlib.run_py(spec, consistency='E'))
 	cmp("consistency_checks='N'", simlib.run_py(spec, consistency='N'))
@@ -50,6 +57,7 @@ def variants(rep, spec, base):
 			nd['initIL'] = '6'; obj.initial_inventory_level = 6; changed.append('initIL')
 	if changed:
 		fresh = simlib.run_py(spec2)
+		reset_markov()
 		again = simlib.run_py(spec2, net_objs=(base['net'], base['objs']))
 		if 'error' in fresh or 'error' in again:
 			if ('error' in fresh) != ('error' in again):
@@ -98,6 +106,19 @@ def run(rep, drv):
 		if r is not None:
 			visiting(rep, spec, r[0])
 			variants(rep, spec, r[0])
+
+	# random inputs: the trajectory is a function of (network, horizon, seed) - every variant above must reproduce it, for every legal seed (0 included)
+	for k in range(500 if th else 60):
+		spec = simlib.gen_spec(rng, th, {'prandom': .8})
+		r = simstream.one_case(rep, drv, 'sim-trace-full', spec, None, None, THEOREM)
+		if r is not None:
+			variants(rep, spec, r[0])
+			fresh = simlib.run_py(spec)
+			if 'error' not in fresh:
+				d = simlib.compare_traces(spec, r[0], fresh)
+				if d or fresh['total'] != r[0]['total']:
+					rep.diff('variants', 'two fresh identical networks simulated with rand_seed=%s follow different trajectories: %s' % (spec.get('seed'), simlib.fmt_diffs(d)), spec,
+							 py={'diffs': [list(map(str, x)) for x in d[:8]]}, oracle=True, theorem=THEOREM)
 
 def replay(rep, drv, doc):
 	r = simstream.one_case(rep, drv, 'sim-trace-full', doc['case'], None, None, THEOREM)
